@@ -43,6 +43,9 @@ def specs_for(ctx):
                  {"kind": "catalogue", "base": rng.choice(["hex33", "irregular"]), "sagitta": rng.choice([None, 0.15]), "tseed": rng.randrange(10 ** 6)}
         alpha = 10 ** rng.uniform(-3, 3) if rng.random() < 0.7 else 1.0
         beta = 10 ** rng.uniform(-3, 3) if (alpha == 1.0 or rng.random() < 0.3) else 1.0
+        if rng.random() < 0.25:
+            # extreme but ordinary unit changes (seconds -> microseconds, microns -> metres): junction speeds of 1e-7..1e-12
+            alpha, beta = 10 ** rng.uniform(3, 6), 10 ** rng.uniform(-6, -3)
         specs.append({"pair": True, "pair_kind": "units", "dynamic": True, "units": [alpha, beta], "tissue": tissue,
                       "k": rng.choice([2, 4, 8]), "seed": rng.randrange(10 ** 9), "want": ["C06"],
                       "nframes": nframes, "when": rng.randrange(nframes), "step_frac": rng.choice([0.05, 0.2]),
